@@ -83,6 +83,16 @@ def gen_knobs(rng, prop, profile):
         seen = set()
         keys = [k for k in keys if (k["scheme"], k["res"], k["comment"]) not in seen and not seen.add((k["scheme"], k["res"], k["comment"]))]
     second = rng.random() < 0.35
+    if rng.random() < 0.25:
+        # some objects live in a second store that shares the sim:// scheme (resource chosen by valid_uri)
+        for kd in keys:
+            if kd["scheme"] == "sim" and "/" not in kd["res"] and rng.random() < 0.5:
+                new = "private/" + kd["res"]
+                if (kd["scheme"], new, kd["comment"]) not in {(x["scheme"], x["res"], x["comment"]) for x in keys}:
+                    res_sizes.setdefault(new, res_sizes[kd["res"]])
+                    kd["res"] = new
+    if c19 and len(keys) >= 3 and rng.random() < 0.06:
+        keys[-1] = dict(keys[-1], scheme="nosuch")  # a uri whose scheme no resource handles
     sizes = sorted(res_sizes[k["res"]] + (4 if k["pp"] else 0) for k in keys)
     total = sum(sizes)
     cls = wchoice(rng, [(12, "tiny"), (30, "few"), (33, "half"), (25, "all")])
